@@ -152,7 +152,8 @@ class SearchCriteria(metaclass=ABCMeta):
             name, value = key.filter_header
             return HeaderSearchCriteria(name, value, params)
         elif key_name in (b'BODY', b'TEXT'):
-            return BodySearchCriteria(key.filter_str, params)
+            return BodySearchCriteria(key.filter_str, params,
+                                      header=(key_name == b'TEXT'))
         raise SearchNotAllowed(key)
 
 
@@ -430,10 +431,12 @@ class HeaderSearchCriteria(SearchCriteria):
 class BodySearchCriteria(SearchCriteria):
     """Matches if the message body contains a value."""
 
-    def __init__(self, value: str, params: SearchParams) -> None:
+    def __init__(self, value: str, params: SearchParams, *,
+                 header: bool = True) -> None:
         super().__init__(params)
         self.value = bytes(value, 'utf-8', 'replace')
+        self.header = header
 
     def matches(self, msg_seq: int, msg: MessageInterface,
                 loaded_msg: LoadedMessageInterface) -> bool:
-        return loaded_msg.contains(self.value)
+        return loaded_msg.contains(self.value, header=self.header)
